@@ -1924,25 +1924,25 @@ func (a *Agent) TaskPrepare(Command int, Info any, Message *map[string]string, C
 							} else {
 
 								if err != io.EOF {
-
 									/* we failed to read from the socks proxy */
 									logger.Error(fmt.Sprintf("Failed to read from socket %08x: %v", SocketId, err))
-
-									a.SocksClientClose(int32(SocketId))
-
-									/* make a new job */
-									var job = Job{
-										Command: COMMAND_SOCKET,
-										Data: []any{
-											SOCKET_COMMAND_CLOSE,
-											int32(SocketId),
-										},
-									}
-
-									/* append the job to the task queue */
-									a.AddJobToQueue(job)
-
 								}
+
+								/* the client is gone, whether it closed cleanly (EOF) or not:
+								 * remove the socket and tell the agent to close its end */
+								a.SocksClientClose(int32(SocketId))
+
+								/* make a new job */
+								var job = Job{
+									Command: COMMAND_SOCKET,
+									Data: []any{
+										SOCKET_COMMAND_CLOSE,
+										int32(SocketId),
+									},
+								}
+
+								/* append the job to the task queue */
+								a.AddJobToQueue(job)
 
 								break
 							}
